@@ -160,7 +160,12 @@ type vfRandReader struct{}
 func (vfRandReader) Read(p []byte) (int, error) {
 	vfRandCalls++
 	for i := range p {
-		p[i] = byte(vfVal(fmt.Sprintf("rand#%d_%d", vfRandCalls, i)))
+		if v, ok := vfModel.Vars[fmt.Sprintf("rand#%d_%d", vfRandCalls, i)]; ok {
+			p[i] = byte(v)
+		} else {
+			// unconstrained by the model: any value will do; make calls differ
+			p[i] = byte(vfRandCalls*37 + i*11 + 1)
+		}
 	}
 	return len(p), nil
 }
@@ -197,14 +202,10 @@ func vfNativeSetup() {
 
 func vfTier() int { return vfTierLevel }
 
-func vfJournalStart() {}
-func vfJournalStop()  {}
-
-// vfWritten: write-set query (ghost; native twin always false — see DESIGN.md).
-func vfWritten(root any, skip ...any) bool { return false }
-func vfPoolLive() int                      { return 0 }
-func vfPoolGets() int                      { return 0 }
-func vfCounter(name string) int            { return 0 }
+func vfJournalStop()            {}
+func vfPoolLive() int           { return 0 }
+func vfPoolGets() int           { return 0 }
+func vfCounter(name string) int { return 0 }
 
 // Pure combinators: under gse they build one term instead of forking like && and || do.
 func vfAnd(a, b bool) bool     { return a && b }
